@@ -1,6 +1,7 @@
 import MjProof.Num
 import MjProof.Gen.Kernels
 import MjProof.Gen.RK4
+import MjProof.Gen.C05DTerms
 /-
 C05 — executable model of the state-advancement code of `src/engine/engine_forward.c` / `engine_support.c`,
 written once over the law-free number class `MjNum α` (runs on `Float` in `Drivers/C05.lean`, reasoned about on
@@ -19,6 +20,12 @@ Modelled, in the operation order of the C code (so that the `Float` instance is 
     NEW `qvel`; `time += h`.
   * `mj_RungeKutta` for N = 4 with the generated tableau `MjProof.Gen.RK4.A/B`: stage states, stage times, the
     final combination and the final `mj_advance`.
+  * WHICH force terms enter the matrix `D` of the `(M − h·D)` solve (section "terms of D"): an interpreter of the
+    *generated* top-level statement lists of `mjd_smooth_vel`, `mjd_actuator_vel`, `mjd_passive_vel`, `mj_passive`,
+    `mj_fluid` (`Gen/C05DTerms.lean`, translate/c05_dterms.py: early returns on the spring / damper / actuation
+    disable flags between the term blocks) and of the `flg_bias` constants of `mj_implicitSkip`; hand-modelled on top:
+    the value-level gating of `mj_springdamper` (`enbl_damper`), of `mj_fwdActuation` (actuation disabled), the
+    damping test of `mj_EulerSkip` and the local solve of implicitfast for standalone free bodies.
 Not modelled (outside the property or covered elsewhere): history buffers, sleeping (`mj_sleep`, awake-index
 variants), plugins, `qacc_warmstart`; the flat arrays are the concatenation of the per-joint / per-actuator blocks
 in index order (the harness checks this layout on every model it feeds).
@@ -397,5 +404,94 @@ def rk4Step (P : Params α) (F : State α → Deriv α) (x0 : State α) : Option
     let x3 ← stage P x0 [x0.qvel, x1.qvel, x2.qvel] [f0, f1, f2] [a20, a21, a22]
     rk4 P x0 f0 f1 f2 (F x3)
   | _, _ => none
+
+/-! ### terms of D: which force-velocity derivatives enter the `(M − h·D)` solve -/
+
+namespace DTerms
+open MjProof.Gen.C05DTerms
+
+/-- the option bits that gate force terms and their derivatives (`true` = the `mjDSBL_` bit is SET) -/
+structure DFlags where
+  spring : Bool
+  damper : Bool
+  actuation : Bool
+  eulerdamp : Bool
+  deriving DecidableEq, Repr
+
+def DFlags.get (f : DFlags) : Flag → Bool
+  | .spring => f.spring
+  | .damper => f.damper
+  | .actuation => f.actuation
+
+/-- `if (c) { return; }` with `c` in disjunctive normal form over `mjDISABLED(..)` tests -/
+def condHolds (f : DFlags) (dnf : List (List Flag)) : Bool := dnf.any (fun c => c.all f.get)
+
+/-- the term markers reached by running a generated top-level statement list under flags `f`
+(and the argument `flg_bias`): statements after a taken early return are not reached -/
+def runShape (f : DFlags) (flgBias : Bool) : List Stmt → List Mark
+  | [] => []
+  | .retIf c :: r => if condHolds f c then [] else runShape f flgBias r
+  | .adds ms :: r => ms ++ runShape f flgBias r
+  | .addsIfBias ms :: r => (if flgBias then ms else []) ++ runShape f flgBias r
+
+/-- markers of the derivative blocks that `mjd_smooth_vel(m, d, flgBias)` adds to `qDeriv` under flags `f`
+(callees are entered only where the caller's statement list reaches the call) -/
+def derivMarks (f : DFlags) (flgBias : Bool) : List Mark :=
+  let top := runShape f flgBias mjd_smooth_vel
+  (if top.contains .actuatorVelCall then runShape f flgBias mjd_actuator_vel else []) ++
+  (if top.contains .passiveVelCall then runShape f flgBias mjd_passive_vel else []) ++
+  (if top.contains .rneVelCall then [.rneVelCall] else [])
+
+/-- markers of the passive force computations that `mj_passive` reaches under flags `f` -/
+def forceMarks (f : DFlags) : List Mark :=
+  let top := runShape f false mj_passive
+  top ++ (if top.contains .fluidCall then runShape f false mj_fluid else [])
+
+/-- velocity-dependent smooth force terms (the probe scenes of checks/c05.py carry exactly one of them each) -/
+inductive FTerm
+  | dofDamper        -- joint damping (linear + polynomial)
+  | tendonDamper     -- tendon damping
+  | fluidBox         -- fluid forces, inertia-box model
+  | fluidEllipsoid   -- fluid forces, ellipsoid model
+  | actuator         -- velocity-dependent actuator force (affine bias / gain)
+  | biasChain        -- Coriolis / centripetal forces of a kinematic chain
+  | biasFree         -- gyroscopic force of a standalone free body
+  deriving DecidableEq, Repr
+
+inductive Integ | euler | rk4 | implicit | implicitfast
+  deriving DecidableEq, Repr
+
+/-- does the forward pass apply the term under flags `f`?  Passive terms: `mj_passive` must reach the computation
+(generated lists); the dampers are additionally gated by value inside `mj_springdamper` (`enbl_damper`);
+`mj_fwdActuation` zeroes the actuator forces when actuation is disabled; the bias force is always computed. -/
+def applied (f : DFlags) : FTerm → Bool
+  | .dofDamper | .tendonDamper => (forceMarks f).contains .springdamperCall && !f.damper
+  | .fluidBox => (forceMarks f).contains .fluidBoxForce
+  | .fluidEllipsoid => (forceMarks f).contains .fluidEllipsoidForce
+  | .actuator => !f.actuation
+  | .biasChain | .biasFree => true
+
+/-- is the derivative of the term part of `qDeriv` after `mjd_smooth_vel(m, d, flgBias)`? -/
+def inQDeriv (f : DFlags) (flgBias : Bool) : FTerm → Bool
+  | .dofDamper => (derivMarks f flgBias).contains .dofDamper
+  | .tendonDamper => (derivMarks f flgBias).contains .tendonDamper
+  | .fluidBox => (derivMarks f flgBias).contains .fluidBox
+  | .fluidEllipsoid => (derivMarks f flgBias).contains .fluidEllipsoid
+  | .actuator => (derivMarks f flgBias).contains .actuatorMoment
+  | .biasChain | .biasFree => (derivMarks f flgBias).contains .rneVelCall
+
+/-- is the derivative of the term part of the matrix `D` of the integrator's `(M − h·D)` solve?
+Euler (`mj_EulerSkip`): joint damping only, unless `mjDSBL_EULERDAMP` or `mjDSBL_DAMPER`; RK4: no solve;
+implicit / implicitfast (`mj_implicitSkip`): `qDeriv` of `mjd_smooth_vel` with the generated `flg_bias`; implicitfast
+re-instates the bias derivative for standalone free bodies in the local 6x6 solve (`mjd_freeMhat`).
+`none`: the translator refused `mj_implicitSkip`. -/
+def inD (i : Integ) (f : DFlags) (t : FTerm) : Option Bool :=
+  match i with
+  | .euler => some (t == .dofDamper && !f.eulerdamp && !f.damper)
+  | .rk4 => some false
+  | .implicit => flgBiasImplicit.map (fun b => inQDeriv f b t)
+  | .implicitfast => flgBiasImplicitfast.map (fun b => inQDeriv f b t || t == .biasFree)
+
+end DTerms
 
 end MjProof.Integrate
